@@ -253,3 +253,71 @@ def units_for(prop, tier):
                 stubs=["variant shape from the real _handle_unreached_code run; rewrite deltas of if/elif tags symbolic"],
                 witnesses_required=["rectified"], sharded=False, timeout_s=300))
     return us
+
+
+# ---------------------------------------------------------------- every variant of block-built templates (real templater)
+VBLOCKS = ["a ", "{% if x %}b {% endif %}", "{% if x %}{% if y %}c {% endif %}{% endif %}", "{% if z %}d {% else %}e {% endif %}",
+           "{{ v }} ", "\n", "{% if x %}f {% elif y %}g {% else %}hh {% endif %}", "{% for i in r %}k {% endfor %}",
+           "{% if y %}{% if z %}m {% else %}nn {% endif %}{% endif %}"]
+
+
+def variants_of(src, ctx):
+    cfg = FluffConfig(overrides={"dialect": "ansi", "templater": "jinja"})
+    return list(JinjaTemplater(override_context=dict(ctx)).process_with_variants(in_str=src, fname="f.sql", config=cfg))
+
+
+def variant_problems(src, ctx):
+    from harness.tmpl_python import check_map
+    out = []
+    for k, (tf, errs) in enumerate(variants_of(src, ctx)):
+        if tf is None:
+            continue
+        p = check_map(src, tf, control_flow_free=False)
+        # clause: every source slice of a variant is the range of a raw slice or a union of adjacent ones
+        starts = {r.source_idx for r in tf.raw_sliced} | {len(src)}
+        for s in tf.sliced_file:
+            if s.source_slice.start not in starts or s.source_slice.stop not in starts:
+                p.append(f"slice {s.slice_type} source {s.source_slice} does not start/end on raw slice boundaries")
+        if p:
+            out.append(f"variant {k} ({tf.templated_str!r}): " + "; ".join(p[:2]))
+    return out
+
+
+def make_variants(n_blocks):
+    def factory(excluded=frozenset()):
+        def harness(c):
+            from symlite.values import choose, fresh_int
+            n = int(fresh_int(c, "n_blocks", 1, n_blocks))
+            src = "".join(choose(c, f"block{i}", VBLOCKS) for i in range(n))
+            ctx = {k: int(fresh_int(c, f"ctx_{k}", 0, 1)) for k in ("x", "y", "z")}
+            ctx.update(v="vv", r=[1, 2])
+            vs = variants_of(src, ctx)   # REAL process_with_variants
+            if len(vs) > 1:
+                c.witness("alternate_variant")
+            if len(vs) > 2:
+                c.witness("several_alternate_variants")
+            return not variant_problems(src, ctx)
+        return harness
+    return factory
+
+
+def replay_variants(cex):
+    n = int(cex.get("n_blocks", 1))
+    src = "".join(VBLOCKS[int(cex.get(f"block{i}", 0))] for i in range(n))
+    ctx = {k: int(cex.get(f"ctx_{k}", 0)) for k in ("x", "y", "z")}
+    ctx.update(v="vv", r=[1, 2])
+    p = variant_problems(src, ctx)
+    return f"jinja template {src!r} with {ctx}: " + " | ".join(p[:2]) if p else None
+
+
+def variant_units(prop, tier):
+    nb = 2 if tier == "quick" else 3
+    return [Unit(
+        name=f"{prop.lower()}.jinja_variants[<= {nb} blocks]",
+        functions=["sqlfluff.core.templaters.jinja.JinjaTemplater.process_with_variants/_handle_unreached_code/_rectify_templated_slices",
+                   "sqlfluff.core.templaters.slicers.tracer.JinjaAnalyzer/JinjaTracer"],
+        bounds={"template": f"every concatenation of <= {nb} blocks from {VBLOCKS}", "context": "x, y, z in {0,1}"},
+        make=make_variants(nb), replay=replay_variants,
+        stubs=["none: real templater on real strings; template and context are solver-forked"],
+        outside=["if/elif inside for loops (known finding F5)", "macros, set, whitespace control (see the trace units)"],
+        witnesses_required=["alternate_variant", "several_alternate_variants"], sharded=True, timeout_s=900 if tier == "quick" else 3000)]
